@@ -265,6 +265,40 @@ def action_vocabulary(repo, universe):
     return pub, internal, dynamic
 
 
+def reset_table(repo):
+    """assignments of WaterNetworkModel.reset_initial_values: {element class: {field: value text}} (+ 'WaterNetworkModel')"""
+    rs = repo.func(MODEL, "WaterNetworkModel.reset_initial_values")
+    reset = {}     # class -> {field: value text}
+    for n in rs.body:
+        if isinstance(n, ast.For) and isinstance(n.iter, ast.Call) and isinstance(n.iter.func, ast.Attribute) and n.iter.func.attr in KIND_OF_ITER:
+            if n.iter.args and isinstance(n.iter.args[0], ast.Name):
+                classes_ = RESET_KIND.get(n.iter.args[0].id, [n.iter.args[0].id])
+            else:
+                classes_ = KIND_OF_ITER[n.iter.func.attr]
+            tg = n.target.elts[-1].id if isinstance(n.target, ast.Tuple) else n.target.id
+            for s in walk(n):
+                if isinstance(s, ast.Assign):
+                    for t in s.targets:
+                        if isinstance(t, ast.Attribute) and isinstance(t.value, ast.Name) and t.value.id == tg:
+                            # an isinstance guard narrows the classes the assignment applies to
+                            cl = list(classes_)
+                            q = s
+                            while q is not None and q is not n:
+                                pq = parent(q)
+                                if isinstance(pq, ast.If) and q in pq.body and isinstance(pq.test, ast.Call) and unparse(pq.test.func) == "isinstance" \
+                                        and isinstance(pq.test.args[1], ast.Name) and unparse(pq.test.args[0]) == tg:
+                                    nm = pq.test.args[1].id
+                                    cl = [c for c in cl if c in RESET_KIND.get(nm, [nm])]
+                                q = pq
+                            for c in cl:
+                                reset.setdefault(c, {})[t.attr] = unparse(s.value)
+        elif isinstance(n, ast.Assign):
+            for t in n.targets:
+                if isinstance(t, ast.Attribute) and unparse(t.value) == "self":
+                    reset.setdefault("WaterNetworkModel", {})[t.attr] = unparse(n.value)
+    return rs, reset
+
+
 def run(repo, chk):
     ct = ClassTable(repo)
     D, RT, wn_rt = field_sets(repo, ct)
@@ -432,36 +466,8 @@ def run(repo, chk):
         chk.floor("R-C11-2", 2)
 
     # ---------------------------------------------------------------- R-C11-3 reset coverage
-    rs = repo.func(MODEL, "WaterNetworkModel.reset_initial_values")
+    rs, reset = reset_table(repo)
     chk.fn(rs)
-    reset = {}     # class -> {field: value text}
-    for n in rs.body:
-        if isinstance(n, ast.For) and isinstance(n.iter, ast.Call) and isinstance(n.iter.func, ast.Attribute) and n.iter.func.attr in KIND_OF_ITER:
-            if n.iter.args and isinstance(n.iter.args[0], ast.Name):
-                classes_ = RESET_KIND.get(n.iter.args[0].id, [n.iter.args[0].id])
-            else:
-                classes_ = KIND_OF_ITER[n.iter.func.attr]
-            tg = n.target.elts[-1].id if isinstance(n.target, ast.Tuple) else n.target.id
-            for s in walk(n):
-                if isinstance(s, ast.Assign):
-                    for t in s.targets:
-                        if isinstance(t, ast.Attribute) and isinstance(t.value, ast.Name) and t.value.id == tg:
-                            # an isinstance guard narrows the classes the assignment applies to
-                            cl = list(classes_)
-                            q = s
-                            while q is not None and q is not n:
-                                pq = parent(q)
-                                if isinstance(pq, ast.If) and q in pq.body and isinstance(pq.test, ast.Call) and unparse(pq.test.func) == "isinstance" \
-                                        and isinstance(pq.test.args[1], ast.Name) and unparse(pq.test.args[0]) == tg:
-                                    nm = pq.test.args[1].id
-                                    cl = [c for c in cl if c in RESET_KIND.get(nm, [nm])]
-                                q = pq
-                            for c in cl:
-                                reset.setdefault(c, {})[t.attr] = unparse(s.value)
-        elif isinstance(n, ast.Assign):
-            for t in n.targets:
-                if isinstance(t, ast.Attribute) and unparse(t.value) == "self":
-                    reset.setdefault("WaterNetworkModel", {})[t.attr] = unparse(n.value)
     chk.sample({"reset_table": {k: v for k, v in reset.items() if k in ("Junction", "Tank", "Pipe", "WaterNetworkModel")}})
     chk.extra["runtime_fields_written"] = sorted("%s.%s" % k for k in written_rt)
     EXEMPT = {}
